@@ -1,6 +1,7 @@
 import Orx.KSRun
 import Orx.GenThms.Slice
 import Orx.GenThms.Range
+import Orx.GenThms.Own
 /-! # C10 into_seq_iter returns exactly the undelivered remainder, in order -/
 namespace Orx.Props.C10
 open Orx Orx.KS
@@ -42,5 +43,41 @@ theorem source_into_seq_is_remainder (len a b c : Nat) (evs dr) (ha : a < W) (hb
     Slice.into_seq_iter (slice len) (st c evs dr) = .ok ⟨min c len, len⟩ (st c (evs ++ [.ld (.ctr 0) .acquire c]) dr) ∧
     Range.into_seq_iter (range a b) (st c evs dr) = .ok ⟨a + min c (b - a), b⟩ (st c (evs ++ [.ld (.ctr 0) .acquire c]) dr) :=
   ⟨slice_into_seq_iter len c evs dr, range_into_seq_iter a b c evs dr ha hb⟩
+
+
+/-! ## The consuming kinds as in the source (`Generated/Own.lean`) -/
+section SourceOwn
+open Orx.RSO Orx.GenO Orx.GenThms.Own
+
+/-- **`into_seq_iter` of `ConIterOfVec` as in the source** (`split_off_right` + the `Drop` of `self`), followed by a caller
+that drains the result: it yields exactly the positions `[min(c, len), len)` in order, destroys nothing, and never faults -/
+theorem source_vec_into_seq_is_remainder (len cap f : Nat) (o : OSt) (ρ' : Type) (hc : VecCell o len cap)
+    (hu : Untouched o (min o.ctr len) len) :
+    (do let it ← Vec.into_seq_iter f (vecS len); seqConsume it none : PF ρ' _) o =
+      .ok (.norm (remainder len o.ctr))
+        { afterVecIntoSeq o len cap with heap := (afterVecIntoSeq o len cap).heap ++ (if 0 < len - min o.ctr len then [.free 1] else []) } := by
+  have hs := seq_consume ⟨min o.ctr len, len - min o.ctr len, len - min o.ctr len, 1⟩ none (afterVecIntoSeq o len cap) ρ'
+    (fun p h1 h2 => (hu p h1 (by simp only at h2; omega)).2)
+  have hb : min o.ctr len + (len - min o.ctr len) = len := by omega
+  simp only [seqCount, Nat.sub_self, dpHit_zero, dpAfter_zero, hb, GenThms.Own.rangeList_nil len len (Nat.le_refl _), List.append_nil] at hs
+  simp only [bind, PF.bind, vec_into_seq_iter len cap f o _ hc hu, hs, remainder]
+  simp [KS.rangeList, RSO.rangeList, afterVecIntoSeq]
+
+/-- **`into_seq_iter` of `ConIterOfArray` as in the source**: the same positions; `self` is forgotten, nothing is destroyed -/
+theorem source_arr_into_seq_is_remainder (N f : Nat) (o : OSt) (ρ' : Type) (hc : ArrCell o N) (hu : Untouched o (min o.ctr N) N) :
+    (Arr.into_seq_iter f N arrS : PF ρ' _) o =
+      .ok (.norm (arrRest N (min o.ctr N)))
+        { o with evs := o.evs ++ [.ld (.ctr 0) .acquire o.ctr], vac := o.vac ++ RSO.rangeList (min o.ctr N) N,
+                 heap := o.heap ++ (if min o.ctr N < N then [.alloc 1] else []) } ∧
+    RSO.rangeList (arrRest N (min o.ctr N)).base ((arrRest N (min o.ctr N)).base + (arrRest N (min o.ctr N)).len) = remainder N o.ctr := by
+  refine ⟨arr_into_seq_iter N f o ρ' hc hu, ?_⟩
+  unfold arrRest remainder
+  by_cases h : min o.ctr N < N
+  · have hb : min o.ctr N + (N - min o.ctr N) = N := by omega
+    simp [h, hb, KS.rangeList, RSO.rangeList]
+  · have : min o.ctr N = N := by omega
+    simp [this, KS.rangeList, RSO.rangeList]
+
+end SourceOwn
 
 end Orx.Props.C10
